@@ -102,6 +102,16 @@ def check_run(case, sub="runs"):
         cl.append("n_hof>n_pop")
     if case.get("init_circuit") and case["solver"] == "evolutionary":
         cl.append("initial_circuit_given")
+    # an unrelated solver object sets its one-qubit gate distributions (uniform) before the first run and (non-uniform) before
+    # the second: nothing of that may reach the solvers under test, and the case behaves the same whatever ran before it
+    def customise(dist_of):
+        other, _, _ = build_solver(case)
+        k_ops = len(other.one_qubit_ops)
+        for upd in ("update_emitter_one_qubit_gate_probs", "update_photonic_one_qubit_gate_probs"):
+            if hasattr(other, upd):
+                guarded(sub, icls, getattr(other, upd), [dist_of(i) for i in range(k_ops)])
+
+    customise(lambda i: 1.0)
     solver, comp, metric, history, pops = guarded(sub, icls, run_once, case)
     sig1 = hof_signature(solver)
     # (b) ordered, placeholders only at the tail
@@ -154,7 +164,9 @@ def check_run(case, sub="runs"):
     after = [None if c is None else c.to_openqasm() for _, c in solver.hof]
     if before != after:
         raise Violation(sub, "hof-aliased", "update_hof", icls, "changing a population circuit changed a hall-of-fame circuit")
-    # (a) reproducible with the seed, in process
+    # (a) reproducible with the seed, in process; in between, an unrelated solver object customises its one-qubit gate
+    # distributions (nothing of that may reach other solver objects)
+    customise(lambda i: 1.0 + (i % 3) + 5.0 * (i % 2))
     solver2, _, _, history2, _ = guarded(sub, icls, run_once, case)
     sig2 = hof_signature(solver2)
     if sig1 != sig2:
